@@ -1436,3 +1436,21 @@ func edgeHolds(from *ssa.BasicBlock, k int, t *ssa.BasicBlock) bool {
 	}
 	return false
 }
+
+// dominatesAt: instruction a is executed before b on every path that reaches b - by dominance, or because every such
+// path enters a merge block through the one predecessor that the conditions holding at b single out (nilCorrelatedPred)
+// and a dominates that predecessor's end.
+func dominatesAt(a, b ssa.Instruction) bool {
+	if instrDominates(a, b) {
+		return true
+	}
+	cs := dominatingConds(b.Block())
+	for d := b.Block(); d != nil; d = d.Idom() {
+		if p := nilCorrelatedPred(d, cs); p != nil {
+			if a.Block() == p || a.Block().Dominates(p) {
+				return true
+			}
+		}
+	}
+	return false
+}
